@@ -398,6 +398,28 @@ class Gen:
         if tv is str:
             return f"(VStr {coq_cps(v)})"
         if tv is bytes:
+            if v[:4] == b"\xff\xff\xff\xff":  # IPC bytes left unconverted: the model keeps them symbolic
+                if T is not None and T[0] == "c":
+                    # a nested dataclass in binary form that was left as bytes: show the one-row batch it holds
+                    try:
+                        batch = pa.ipc.open_stream(v).read_next_batch()
+                        try:
+                            batch.validate(full=True)
+                            valid = "true"
+                        except pa.ArrowInvalid:
+                            valid = "false"
+                        by_name = {f.name: f for f in self.classes[T[1]].fields}
+                        cols = [(by_name[n], batch.column(i)[0].as_py()) for i, n in enumerate(batch.schema.names) if n in by_name]
+                        if batch.num_rows == 1 or batch.num_columns == 0:
+                            return f"(VIpcRow {valid} [" + "; ".join(f"({f.idx}, {self.render(x, f.T)})" for f, x in cols) + "])"
+                    except Exception:  # noqa: BLE001 - fall through to the plain rendering
+                        pass
+                for i, ipc in enumerate(_ipc_tables()[0]):
+                    if v == ipc:
+                        return f"(VIpcSchema {i})"
+                for i, ipc in enumerate(_ipc_tables()[1]):
+                    if v == ipc:
+                        return f"(VIpcBatch {i})"
             return f"(VBytes {coq_bytes(v)})"
         et = T[1] if T is not None and T[0] in ("l", "fs") else None
         if tv is list:
@@ -433,6 +455,24 @@ class Gen:
         if cd is not None:
             return f"(VObj {cd.cid} [" + "; ".join(f"({f.idx}, {self.render(getattr(v, f.name), f.T)})" for f in cd.fields) + "])"
         return "(VBytes [999999])"  # something the model has no value for: certainly a disagreement
+
+
+_IPC: list[list[bytes]] = []
+
+
+def _ipc_tables() -> list[list[bytes]]:
+    if not _IPC:
+        from vgi_rpc.utils import new_ipc_stream
+
+        sch = [s.serialize().to_pybytes() for s in SCHEMAS]
+        bat = []
+        for b in BATCHES:
+            sink = pa.BufferOutputStream()
+            with new_ipc_stream(sink, b.schema) as w:
+                w.write_batch(b)
+            bat.append(sink.getvalue().to_pybytes())
+        _IPC.extend([sch, bat])
+    return _IPC
 
 
 def coq_cps(s: str) -> str:
